@@ -1,3 +1,7 @@
+/-
+Soundness of `handle_sum` of the factorisation model: the result dictionary has the union of the
+keys and `Σ result = Σ fac0 + Σ fac1` (an argument-free summand contributes nothing — DESIGN F10).
+-/
 import FfcxProofs.Lemmas.FactorizeDict
 
 namespace Ffcx.IR
